@@ -7,7 +7,7 @@ from simkit.program import Cfg, gen_program
 from simkit import lifecycle as lc
 
 ID = "C05"
-RUNS = {"quick": 400_000, "thorough": 3_000_000}
+RUNS = {"quick": 280_000, "thorough": 3_000_000}
 SIM_TIME_UNIT = "scripted user operations executed"
 RULE = (
     "each run = one generated program whose stages attach lazy details under an 8-name alphabet that "
